@@ -196,6 +196,10 @@ func (*capViews) Load() error { return nil }
 
 func (v *capViews) Render(w io.Writer, name string, bind any, _ ...string) error {
 	v.s.renders++
+	if strings.Contains(name, "fail") {
+		// a template the engine does not know / that fails while executing
+		return errors.New("capViews: template " + name + " does not exist")
+	}
 	v.s.lastBind = canon(bind)
 	_, err := io.WriteString(w, "tpl:"+name+":"+v.s.lastBind)
 	return err
@@ -510,6 +514,14 @@ func isoBuild(cfg isoCfg) (*fiber.App, *isoSink) {
 		switch c.Query("do") {
 		case "render":
 			return c.Render("hist", fiber.Map{"h": id})
+		case "rendernil":
+			return c.Render("hist", nil)
+		case "renderfail":
+			// everything was bound through ViewBind / locals; the render itself fails
+			if err := c.Render("fail-"+id+".tmpl", nil); err != nil {
+				return c.Status(500).SendString("render failed: " + err.Error())
+			}
+			return nil
 		case "next":
 			return c.Next() // nothing follows: 404 with locals and view bindings set
 		case "err":
@@ -793,6 +805,11 @@ func isoBuild(cfg isoCfg) (*fiber.App, *isoSink) {
 		pb := fiber.Map{"own": "probe"}
 		rerr := c.Render(filepath.Join(dir, "probe.tmpl"), pb)
 		v["view-bind"] = canon(map[string]any{"bind": s.lastBind, "map-after-render": normalise(pb), "err": errStr(rerr), "body": string(c.Response().Body())})
+		c.Response().ResetBody()
+		// and once more the way handlers that bind everything through ViewBind / locals do it
+		s.lastBind = ""
+		rerr = c.Render(filepath.Join(dir, "probe.tmpl"), nil)
+		v["view-bind-nil"] = canon(map[string]any{"bind": s.lastBind, "err": errStr(rerr), "body": string(c.Response().Body())})
 		c.Response().ResetBody()
 		c.Response().Header.Del(fiber.HeaderContentType)
 
